@@ -2,6 +2,8 @@
    A block is the list of (source, reference) values at its jointly valid processing-grid pixels. *)
 From Coq Require Import ZArith QArith List Bool Permutation.
 From HV Require Import Base.QSum Kernel.Fit Kernel.Spec Stats.Compare Stats.CompareProofs Grid.Window Grid.WindowProofs.
+From HVgen Require Import Formulas.
+From HV Require Import Tie.FormulaTie.
 Import ListNotations.
 Open Scope Q_scope.
 
@@ -51,3 +53,16 @@ Example C11_example :
   let l := [(1, 2); (2, 4); (4, 5)] in
   s_n (band_stats (block_sums l)) == 3 /\ (match s_rmse2 (band_stats (accumulate [[(1, 2); (2, 4)]; [(4, 5)]])) with Fin v => v == 2 | NonFin => False end).
 Proof. vm_compute. split; reflexivity. Qed.
+
+(* ---- tie to the source: the arithmetic of get_band_stats in the current compare.py is that of Stats.Compare.band_stats
+        (r2 = pcc^2 with pcc = num / (sqrt a * sqrt b); RMSE = sqrt (res2 / N); rRMSE = RMSE / mean(ref); N = mask_sum) *)
+Theorem C11_source_arithmetic_is_the_model (S : csums) mx my rmse :
+  let N := cN S in let X := cX S in let Y := cY S in let XY := cXY S in let XX := cXX S in let YY := cYY S in let RR := cRes S in
+  gen_cmp_src_mean N X Y XY XX YY RR mx my rmse == cX S / cN S /\ gen_cmp_ref_mean N X Y XY XX YY RR mx my rmse == cY S / cN S /\
+  gen_cmp_pcc_num N X Y XY XX YY RR mx my rmse == cXY S - cN S * mx * my /\
+  gen_cmp_pcc_den_a N X Y XY XX YY RR mx my rmse == cXX S - cN S * (mx * mx) /\
+  gen_cmp_pcc_den_b N X Y XY XX YY RR mx my rmse == cYY S - cN S * (my * my) /\
+  gen_cmp_rmse_sq N X Y XY XX YY RR mx my rmse == cRes S / cN S /\
+  gen_cmp_rrmse N X Y XY XX YY RR mx my rmse == rmse / my /\ gen_cmp_returns_ok = true.
+Proof. exact (tie_compare S mx my rmse). Qed.
+Print Assumptions C11_source_arithmetic_is_the_model.
